@@ -11,7 +11,7 @@ import json
 import random
 
 from vlib import pool
-from vlib.gen import archives
+from vlib.gen import archives, sevenz
 
 LEVEL = "exploration"
 MEMBER_FMTS = ["txt", "csv", "md", "json", "html", "rtf", "docx", "xlsx", "pptx", "odt", "ods", "pdf", "epub"]
@@ -26,8 +26,13 @@ def work_init(init):
         obs.extractor(k)
 
 
-def build_members(seed: int, n: int, corrupt: int | None, with_noise: bool):
-    """-> (members for archives.build, eligible list [(name, data)], corrupted member name or None)"""
+def build_members(seed: int, n: int, corrupt: int | None, with_noise: bool, prefix: str = "", dict_size: int | None = None):
+    """-> (members for archives.build, eligible list [(name, data)], corrupted member name or None)
+
+    ``prefix``: every member name starts with it ("./" = what `tar -czf x.tgz .`, `zip -r x.zip .` and 7z with ./ arguments write; the
+    "." directory itself comes first).  ``dict_size``: the 7z folder's LZMA / LZMA2 dictionary; members are added whose content repeats at a
+    distance between 2/3 of it and all of it (within one member, and as a second copy of an earlier member), so that the packed stream
+    really contains matches that need the whole declared dictionary."""
     from vlib.gen import docs, mutate
     rng = random.Random(f"c10:{seed}")
     members, eligible = [], []
@@ -35,6 +40,18 @@ def build_members(seed: int, n: int, corrupt: int | None, with_noise: bool):
             "long-" + "p" * 70 + "/" + "q" * 64 + "/"]      # > 100 bytes: GNU @LongLink record / ustar prefix field / pax path record in front of the member
     used = set()
     corrupted = None
+    if prefix == "./":
+        members.append({"name": ".", "type": "dir"})
+    if dict_size and n:
+        r3 = random.Random(f"c10d:{seed}")
+        abc = b"abcdefghijklmnopqrstuvwxyz ABCDEFGHIJKLM,.\n"
+        table = bytes(abc[i % len(abc)] for i in range(256))
+        blk = r3.randbytes(min(900, dict_size // 6)).translate(table)
+        dist = r3.randint(dict_size * 2 // 3 + 8, dict_size - 8)
+        fill = r3.randbytes(dist - len(blk)).translate(table)
+        data = b"qr00005z " + blk + fill + blk + b" qr00006z\n"
+        members.append({"name": f"{prefix}far-repeat.txt", "data": data, "type": "file"})
+        eligible.append((f"{prefix}far-repeat.txt", data))
     for i in range(n):
         fmt = rng.choice(MEMBER_FMTS)
         data, _ = docs.build(fmt, seed * 100 + i)
@@ -42,18 +59,36 @@ def build_members(seed: int, n: int, corrupt: int | None, with_noise: bool):
         d = rng.choice(dirs)
         # duplicate basenames in different folders are intended; names mix Latin-1, U+xx00 code units (0x0100, 0x4E00, 0x3000), astral and combining characters
         base = rng.choice(["report", "data", "notes", "Überblick", "same", "v1\u4e00", "Q1最终", "x\u0100", "é\u0300", "n\u3000m", "\U0001F4C4doc", "ß\u0200"])
-        name = f"{d}{base}{i if rng.random() < 0.6 else ''}{ext}"
+        name = f"{prefix}{d}{base}{i if rng.random() < 0.6 else ''}{ext}"
         if name in used:
-            name = f"{d}{base}_{i}{ext}"
+            name = f"{prefix}{d}{base}_{i}{ext}"
         used.add(name)
+        d = prefix + d
         if corrupt is not None and i == corrupt:
             r2 = random.Random(f"c10c:{seed}")
             op = r2.choice(["truncate", "bitflip", "zero", "head_only", "garbage", "garbage"])
             # "garbage": bytes the member's own extractor is certain to reject (the failure must stay contained)
             data = bytes(r2.randrange(256) for _ in range(200)) if op == "garbage" else mutate.byte_mutate(data, op, r2)
             corrupted = name
+        twin = None
+        if with_noise and rng.random() < 0.25:
+            # a resource-fork-directory member with the *same base name* as the visible member, in front of it or behind it
+            twin = {"name": f"__MACOSX/{name}" if rng.random() < 0.5 else f"__MACOSX/{name.rsplit('/', 1)[-1]}", "data": b"qr00007z fork twin\n", "type": "file"}
+            if rng.random() < 0.5:
+                members.append(twin)
+                twin = None
         members.append({"name": name, "data": data, "type": "file"})
         eligible.append((name, data))
+        if twin:
+            members.append(twin)
+        if dict_size and i == n - 1 and len(eligible) >= 2 and corrupt is None:
+            # second copy of an earlier member under another name: in a solid folder a match as far back as the members in between are long
+            cname, cdata = eligible[rng.randrange(len(eligible) - 1)]
+            cname = cname.rsplit("/", 1)[0] + "/copy-of-" + cname.rsplit("/", 1)[-1] if "/" in cname else "copy-of-" + cname
+            if cname not in used:
+                used.add(cname)
+                members.append({"name": cname, "data": cdata, "type": "file"})
+                eligible.append((cname, cdata))
         if with_noise and rng.random() < 0.5:
             k = rng.random()
             if k < 0.25:
@@ -76,13 +111,21 @@ def _canon(j):
 
 
 def work(case):
-    from vlib import obs
     from vlib.worker import arm_cpu
-    from sharepoint2text.parsing import router
     arm_cpu(120)
-    members, eligible, corrupted = build_members(case["seed"], case["n"], case.get("corrupt"), case.get("noise", True))
+    out = _run(case, case.get("prefix", ""), case.get("dict"))
+    if out["problems"] and (case.get("prefix") or case.get("dict")):
+        # control twin: the same members under plain names in a folder with the writer's default dictionary
+        out["twin_problems"] = sorted({p["sym"] for p in _run(case, "", case.get("dict"), twin=True)["problems"]})
+    return out
+
+
+def _run(case, prefix, dict_size, twin=False):
+    from vlib import obs
+    from sharepoint2text.parsing import router
+    members, eligible, corrupted = build_members(case["seed"], case["n"], case.get("corrupt"), case.get("noise", True), prefix, dict_size)
     layout = case["layout"]
-    data = archives.build(layout, members)
+    data = archives.build(layout, members, dict_size=None if twin else dict_size)
     apath = "dir/arch" + archives.ext_of(layout)
     out = {"layout": layout, "n_members": len(members), "n_eligible": len(eligible), "size": len(data), "problems": []}
     # expected: each eligible member extracted on its own
@@ -126,7 +169,8 @@ def work(case):
                     base = name.rsplit("/", 1)[-1]
                     if m.filename != base:
                         out["problems"].append({"sym": "label-filename-wrong", "detail": f"{m.filename!r} for member {name!r}"})
-                    if not (m.file_path or "").endswith(f"{apath}!/{name}"):
+                    # "./x" and "x" name the same member: either spelling is the member's path
+                    if not (m.file_path or "").endswith((f"{apath}!/{name}", f"{apath}!/{name[2:] if name.startswith('./') else name}")):
                         out["problems"].append({"sym": "label-path-not-archive-bang-member", "detail": f"{m.file_path!r} for member {name!r}"})
                 except Exception as e:
                     out["problems"].append({"sym": "label-metadata-raised", "detail": f"{type(e).__name__}: {e}"})
@@ -162,12 +206,19 @@ def gen_cases(run):
     cid = 0
     reps = run.n(30, 300)
     for layout in archives.EXTENDED_LAYOUTS:
-        # TAR header formats other than tarfile's default (GNU tar's own format, POSIX ustar) x compression: half the repetitions each
-        for r in range(reps if layout in archives.ALL_LAYOUTS else reps // 2):
+        # TAR header formats other than tarfile's default (GNU tar's own format, POSIX ustar) x compression: a third of the repetitions each
+        for r in range(reps if layout in archives.ALL_LAYOUTS else reps // 3):
             n = rng.choice([0, 1, 1, 2, 3, 4, 6, 10])
             corrupt = rng.randrange(n) if (n >= 2 and r % 2 == 1) else None
             cid += 1
-            yield {"id": cid, "layout": layout, "seed": run.seed * 10000 + cid, "n": n, "corrupt": corrupt, "noise": r % 4 != 0}
+            case = {"id": cid, "layout": layout, "seed": run.seed * 10000 + cid, "n": n, "corrupt": corrupt, "noise": r % 4 != 0}
+            if r % 6 == 2:
+                case["prefix"] = "./"           # packed from inside the directory: "./"-prefixed member names
+            if layout.startswith("7z") and "copy" not in layout and r % 3 != 0:
+                # dictionary of the LZMA / LZMA2 folders: every size a property byte can express up to 128 KiB, in the thorough tier now and then up to 1 MiB (2^n and 3 * 2^n), for LZMA also arbitrary values
+                sizes = sevenz.lzma2_dict_sizes(10 if (run.quick or rng.random() < 0.9) else 16) + ([5000, 100000, 4097] if "lzma2" not in layout and "mixed" not in layout else [])
+                case["dict"] = rng.choice(sizes)
+            yield case
 
 
 def main(run):
@@ -192,6 +243,15 @@ def main(run):
         compared += ob.get("n_eligible", 0)
         seen = set()
         feat = "corrupt-member" if case.get("corrupt") is not None else ("empty-archive" if case["n"] == 0 else "clean")
+        dclass = None
+        if case.get("dict"):
+            dclass = "3x2^n" if case["dict"] in sevenz.lzma2_dict_sizes(40)[1::2] else "2^n" if case["dict"] & (case["dict"] - 1) == 0 else "arbitrary"
+            run.count(f"7z_archives_with_{dclass}_dictionary_and_far_matches")
+        if case.get("prefix"):
+            run.count("archives_with_dot-slash_prefixed_names")
+        twin_clean = not ob.get("twin_problems")         # the risky feature is only named when the control twin is judged clean
+        if feat == "clean" and ob["problems"] and twin_clean and (dclass or case.get("prefix")):
+            feat = "+".join(["clean"] + ([f"{dclass}-dictionary-far-matches"] if dclass else []) + (["dot-slash-prefixed-names"] if case.get("prefix") else []))
         for p in ob["problems"]:
             key = f"C10:{lc}:{feat}:{p['sym']}"
             if key not in seen:
@@ -205,6 +265,9 @@ def main(run):
     for fmt in ("pax", "gnu", "ustar"):     # every TAR header format must have been read back uncompressed (detection by the tar magic) and compressed
         run.require(f"tar_{fmt}_uncompressed_archives", sum(n for l, n in per_layout.items() if archives.family(l) == "tar" and archives.tar_format(l) == fmt), 5)
         run.require(f"tar_{fmt}_compressed_archives", sum(n for l, n in per_layout.items() if archives.family(l).startswith("tar.") and archives.tar_format(l) == fmt), 15)
+    for k, lo in (("7z_archives_with_3x2^n_dictionary_and_far_matches", run.n(40, 400)), ("7z_archives_with_2^n_dictionary_and_far_matches", run.n(40, 400)),
+                  ("archives_with_dot-slash_prefixed_names", run.n(60, 600))):
+        run.require(k, run.counters.get(k, 0), lo)
     run.require("members_compared_with_standalone_extraction", compared, run.n(400, 8000))
 
 
